@@ -23,6 +23,7 @@ class Outcome:
         self.post = None
         self.timelines = None
         self.graph = None
+        self.undecided = []       # theory atoms (LRA assertions) left undecided by the reported solution: [{'b':..,'vars':[lra var ids]}]
         self.crash = None         # drv.Crash
         self.stdout = ""
 
@@ -63,6 +64,8 @@ def _parse(out, text):
             out.post = json.loads(line[7:])
         elif line.startswith("@@TIMELINES "):
             out.timelines = json.loads(line[12:])
+        elif line.startswith("@@UNDECIDED "):
+            out.undecided = json.loads(line[12:])
         elif line.startswith("@@GRAPH "):
             out.graph = json.loads(line[8:])
 
